@@ -394,6 +394,15 @@ def rng(prog, rep):
               "the rejection sampler must draw from np.random.default_rng(random_state) only")
 
 
+def _below(l, n, ordered):
+    """the literal says 'something < n' (strictly), also spelt not(something >= n)"""
+    if l[0] == "not" and l[1][0] == "cmp":
+        o = ordered(l[1])
+        return o is not None and o[0] == n and not o[2]          # not(n <= X)  =  X < n
+    o = ordered(l) if l[0] == "cmp" else None
+    return o is not None and o[1] == n and bool(o[2])
+
+
 def sample_size(prog, rep):
     """conditional_sample(n, ...) returns n values whenever at least n were accepted; only a shortfall is returned as it is (with the
     warning).  Whether the budget of iterations was used up says nothing about that: the n-th value may be accepted in the last iteration."""
@@ -408,7 +417,7 @@ def sample_size(prog, rep):
     for r in rets:
         t = b.term(r.value, r)
         cut = t[0] == "sub" and t[2][0] == "slice" and t[2][2] == n and t[2][1] == NONE
-        short = any((ordered(l) is not None and ordered(l)[1] == n and ordered(l)[2]) for l in pcs.of(r))   # ... < n
+        short = any(_below(l, n, ordered) for l in pcs.of(r))   # ... < n
         if not cut and not short:
             bad.append(r)
     rep.check(bool(rets) and not bad, "C16.reject", f"{q}:size", fn.where(bad[0]) if bad else fn.where(), "every return is cut to n values or is a shortfall (fewer than n accepted)",
